@@ -68,15 +68,14 @@ theorem copy_unmark_streamSame {s : Seg} {i rf : Nat} (his : i < s.slots.size) (
       · exact key _ (SameT.tr (child_same _ _ _) (SameT.updParent _ _ _))
   · exact key _ (SameT.rfl' _)
 
-theorem putCopy_PS (c : Ctx) (r : Int) (h : PS c) : OutcomeP PS (opPutCopy c r) := by
+theorem putCopy_J (c : Ctx) (r : Int) {l : List Nat} (hj : J c l) : OutcomeP (fun c' => J c' l) (opPutCopy c r) := by
   unfold opPutCopy
   split
-  · exact h
+  · exact hj
   · rename_i i heq
     split
-    · exact h
+    · exact hj
     · rename_i hdel
-      obtain ⟨l, hj⟩ := h
       have hil := hj.is_mem heq hdel
       have hlive := hj.clean.live i hil
       have his := hj.linked.inb i hil
@@ -87,10 +86,14 @@ theorem putCopy_PS (c : Ctx) (r : Int) (h : PS c) : OutcomeP PS (opPutCopy c r) 
       split
       · split
         · split
-          · exact die_PS _ ⟨l, hj'⟩
-          · exact ⟨l, hj'.same (by simp only [withSeg_seg]; rw [hseg]; exact copy_unmark_streamSame his hlive.1 hlive.2) rfl⟩
-        · exact ⟨l, hj'.same (by simp only [withSeg_seg]; rw [hseg]; exact unmark_streamSame hlive.1 hlive.2) rfl⟩
-      · exact ⟨l, hj'.same (by simp only [withSeg_seg]; rw [hseg]; exact unmark_streamSame hlive.1 hlive.2) rfl⟩
+          · exact die_J _ hj'
+          · exact hj'.same (by simp only [withSeg_seg]; rw [hseg]; exact copy_unmark_streamSame his hlive.1 hlive.2) rfl
+        · exact hj'.same (by simp only [withSeg_seg]; rw [hseg]; exact unmark_streamSame hlive.1 hlive.2) rfl
+      · exact hj'.same (by simp only [withSeg_seg]; rw [hseg]; exact unmark_streamSame hlive.1 hlive.2) rfl
+
+theorem putCopy_PS (c : Ctx) (r : Int) (h : PS c) : OutcomeP PS (opPutCopy c r) := by
+  obtain ⟨l, hj⟩ := h
+  exact (putCopy_J c r hj).mono (fun c' h => ⟨l, h⟩)
 
 theorem assocFold_same (c0 : Ctx) : ∀ (refs : List Int) (acc : Int × Int × Ctx),
     (acc.2.2.seg = c0.seg ∧ acc.2.2.is = c0.is ∧ acc.2.2.highwater = c0.highwater) →
@@ -108,17 +111,20 @@ theorem assocFold_same (c0 : Ctx) : ∀ (refs : List Int) (acc : Int × Int × C
     · exact ⟨by rw [slotat_seg]; exact hs.1, by rw [slotat_is]; exact hs.2.1, by rw [slotat_highwater]; exact hs.2.2⟩
     · exact ⟨by rw [slotat_seg]; exact hs.1, by rw [slotat_is]; exact hs.2.1, by rw [slotat_highwater]; exact hs.2.2⟩
 
-theorem assoc_PS (c : Ctx) (rs : List Int) (h : PS c) : OutcomeP PS (opAssoc c rs) := by
+theorem assoc_J (c : Ctx) (rs : List Int) {l : List Nat} (hj : J c l) : OutcomeP (fun c' => J c' l) (opAssoc c rs) := by
   unfold opAssoc
   simp only []
   obtain ⟨e1, e2, e3⟩ := assocFold_same c rs (-1, -1, c) ⟨rfl, rfl, rfl⟩
-  obtain ⟨l, hj⟩ := h
   have hj' : J (rs.foldl assocStep (-1, -1, c)).2.2 l := ⟨by rw [e1]; exact hj.linked, by rw [e1]; exact hj.clean, by rw [e1, e2]; exact hj.isok, by rw [e3]; exact hj.hw, by rw [e1]; exact hj.alloc⟩
   split
   · split
-    · exact ⟨l, hj'.same (by simp only [withSeg_seg]; exact StreamSame.upd _ _ _ (fun _ => ⟨rfl, rfl, rfl, rfl⟩)) rfl⟩
+    · exact hj'.same (by simp only [withSeg_seg]; exact StreamSame.upd _ _ _ (fun _ => ⟨rfl, rfl, rfl, rfl⟩)) rfl
     · trivial
-  · exact ⟨l, hj'⟩
+  · exact hj'
+
+theorem assoc_PS (c : Ctx) (rs : List Int) (h : PS c) : OutcomeP PS (opAssoc c rs) := by
+  obtain ⟨l, hj⟩ := h
+  exact (assoc_J c rs hj).mono (fun c' h => ⟨l, h⟩)
 
 theorem setAttTo_is (c : Ctx) (i sub : Nat) (v : Int) : (setAttTo c i sub v).is = c.is := by
   unfold setAttTo
@@ -138,27 +144,28 @@ theorem setAttTo_highwater (c : Ctx) (i sub : Nat) (v : Int) : (setAttTo c i sub
     · split <;> rfl
   · rfl
 
-theorem attrSet_PS (c : Ctx) (a b : Nat) (v : Int) (h : PS c) : OutcomeP PS (opAttrSet c a b v) := by
+theorem attrSet_J (c : Ctx) (a b : Nat) (v : Int) {l : List Nat} (hj : J c l) : OutcomeP (fun c' => J c' l) (opAttrSet c a b v) := by
   unfold opAttrSet
   split
   · trivial
   · split
-    · obtain ⟨l, hj⟩ := h
-      exact ⟨l, hj.same (StreamSame.ofSameT (setAttTo_same _ _ _ _)) (setAttTo_is _ _ _ _) (setAttTo_highwater _ _ _ _)⟩
+    · exact hj.same (StreamSame.ofSameT (setAttTo_same _ _ _ _)) (setAttTo_is _ _ _ _) (setAttTo_highwater _ _ _ _)
     · simp only []
-      obtain ⟨l, hj⟩ := h
       split <;> first
-        | exact ⟨l, hj.same (by simp only [withSeg_seg]; exact StreamSame.upd _ _ _ (fun _ => ⟨rfl, rfl, rfl, rfl⟩)) rfl⟩
-        | exact ⟨l, hj⟩
+        | exact hj.same (by simp only [withSeg_seg]; exact StreamSame.upd _ _ _ (fun _ => ⟨rfl, rfl, rfl, rfl⟩)) rfl
+        | exact hj
 
-theorem tempCopy_PS (c : Ctx) (h : PS c) : OutcomeP PS (opTempCopy c) := by
+theorem attrSet_PS (c : Ctx) (a b : Nat) (v : Int) (h : PS c) : OutcomeP PS (opAttrSet c a b v) := by
+  obtain ⟨l, hj⟩ := h
+  exact (attrSet_J c a b v hj).mono (fun c' h => ⟨l, h⟩)
+
+theorem tempCopy_J (c : Ctx) {l : List Nat} (hj : J c l) : OutcomeP (fun c' => J c' l) (opTempCopy c) := by
   unfold opTempCopy
   split
   · rename_i k seg i heq hisq
-    obtain ⟨l, hj⟩ := h
     obtain ⟨l1, i1, hkl, hks, hkf, hkp, hkd, hkc, c1⟩ := newSlot_spec hj.linked hj.clean hj.isok heq
     split
-    · refine ⟨l, ⟨?_, ?_, ?_, by simpa using hj.hw, ?_⟩⟩
+    · refine ⟨?_, ?_, ?_, by simpa using hj.hw, ?_⟩
       · simp only [setCell_seg, withSeg_seg]
         exact ⟨l1.nodup, fun x hx => by simpa using l1.inb x hx, l1.first, l1.last, chain_upd_notin k _ hkl l1.chain⟩
       · simp only [setCell_seg, withSeg_seg]
@@ -181,29 +188,42 @@ theorem tempCopy_PS (c : Ctx) (h : PS c) : OutcomeP PS (opTempCopy c) := by
         · exact hx
         · exact absurd hx hjk
     · trivial
-  · exact die_PS c h
+  · exact die_J c hj
+
+theorem tempCopy_PS (c : Ctx) (h : PS c) : OutcomeP PS (opTempCopy c) := by
+  obtain ⟨l, hj⟩ := h
+  exact (tempCopy_J c hj).mono (fun c' h => ⟨l, h⟩)
+
+theorem slotat_J (c : Ctx) (x : Int) {l : List Nat} (hj : J c l) : J (slotat c x).2 l :=
+  ⟨by rw [slotat_seg]; exact hj.linked, by rw [slotat_seg]; exact hj.clean, by rw [slotat_seg, slotat_is]; exact hj.isok, by rw [slotat_highwater]; exact hj.hw, by rw [slotat_seg]; exact hj.alloc⟩
 
 theorem slotat_PS (c : Ctx) (x : Int) (h : PS c) : PS (slotat c x).2 := by
   obtain ⟨l, hj⟩ := h
-  exact ⟨l, ⟨by rw [slotat_seg]; exact hj.linked, by rw [slotat_seg]; exact hj.clean, by rw [slotat_seg, slotat_is]; exact hj.isok, by rw [slotat_highwater]; exact hj.hw, by rw [slotat_seg]; exact hj.alloc⟩⟩
+  exact ⟨l, slotat_J c x hj⟩
 
-theorem putGlyph_PS (c : Ctx) (k : Nat) (h : PS c) : OutcomeP PS (opPutGlyph c k) := by
+theorem putGlyph_J (c : Ctx) (k : Nat) {l : List Nat} (hj : J c l) : OutcomeP (fun c' => J c' l) (opPutGlyph c k) := by
   unfold opPutGlyph
   split
-  · obtain ⟨l, hj⟩ := h
-    exact ⟨l, hj.same (by simp only [withSeg_seg]; exact StreamSame.upd _ _ _ (fun _ => ⟨rfl, rfl, rfl, rfl⟩)) rfl⟩
+  · exact hj.same (by simp only [withSeg_seg]; exact StreamSame.upd _ _ _ (fun _ => ⟨rfl, rfl, rfl, rfl⟩)) rfl
   · trivial
 
-theorem putSubs_PS (c : Ctx) (r : Int) (i o : Nat) (h : PS c) : OutcomeP PS (opPutSubs c r i o) := by
+theorem putGlyph_PS (c : Ctx) (k : Nat) (h : PS c) : OutcomeP PS (opPutGlyph c k) := by
+  obtain ⟨l, hj⟩ := h
+  exact (putGlyph_J c k hj).mono (fun c' h => ⟨l, h⟩)
+
+theorem putSubs_J (c : Ctx) (r : Int) (i o : Nat) {l : List Nat} (hj : J c l) : OutcomeP (fun c' => J c' l) (opPutSubs c r i o) := by
   unfold opPutSubs
   simp only []
-  have h' := slotat_PS c r h
+  have h' := slotat_J c r hj
   split
   · split
-    · obtain ⟨l, hj⟩ := h'
-      exact ⟨l, hj.same (by simp only [withSeg_seg]; exact StreamSame.upd _ _ _ (fun _ => ⟨rfl, rfl, rfl, rfl⟩)) rfl⟩
+    · exact h'.same (by simp only [withSeg_seg]; exact StreamSame.upd _ _ _ (fun _ => ⟨rfl, rfl, rfl, rfl⟩)) rfl
     · trivial
   · exact h'
+
+theorem putSubs_PS (c : Ctx) (r : Int) (i o : Nat) (h : PS c) : OutcomeP PS (opPutSubs c r i o) := by
+  obtain ⟨l, hj⟩ := h
+  exact (putSubs_J c r i o hj).mono (fun c' h => ⟨l, h⟩)
 
 theorem ops_PS : OpsPreserve PS :=
   ⟨next_PS, insert_PS, delete_PS, putCopy_PS, assoc_PS, tempCopy_PS, attrSet_PS, putGlyph_PS, putSubs_PS, slotat_PS⟩
